@@ -8,7 +8,9 @@ static void row3(const char *key, double (*f)(int, int, double, xrl_error **), i
   fprintf(OUT, ",\"%s\":{\"lo\":%d,\"hi\":%d,\"ok\":[", key, lo, hi);
   int n = hi - lo + 1; double *v = malloc(n * sizeof(double));
   for (int m = lo; m <= hi; m++) { xrl_error *e = NULL; v[m - lo] = f(Z, m, E, &e); fprintf(OUT, "%s%d", m > lo ? "," : "", e == NULL); xrl_clear_error(&e); }
-  fputs("],\"v\":[", OUT); for (int i = 0; i < n; i++) { if (i) fputc(',', OUT); jd(v[i]); } fputs("]}", OUT); free(v);
+  /* the same cells without an error slot: the value must be the same bits (below the edge: the 0 sentinel) */
+  int nd = 0, ndm = 0; for (int m = lo; m <= hi; m++) { double w = f(Z, m, E, NULL); if (memcmp(&w, &v[m - lo], 8)) { if (!nd) ndm = m; nd++; } }
+  fputs("],\"v\":[", OUT); for (int i = 0; i < n; i++) { if (i) fputc(',', OUT); jd(v[i]); } fprintf(OUT, "],\"nd\":%d,\"ndm\":%d}", nd, ndm); free(v);
 }
 int cmd_c09(int argc, char **argv) {
   int zlo = argc > 0 ? atoi(argv[0]) : 0, zhi = argc > 1 ? atoi(argv[1]) : 121; int thorough = argc > 2 && !strcmp(argv[2], "thorough");
